@@ -88,16 +88,22 @@ def reviewedCacheReturns : List ((Nat × Nat) × ReturnTag) :=
    ((k! "types.py", k! "_remove_none_from_type"), .noCaller)]
 
 inductive ListingTag where
-  | sortedByBasename           -- `sorted(…, key=lambda p: p.name)`: independent of the listing order iff basenames are pairwise
-                               -- distinct (`iterSource_perm_invariant`, refuted otherwise: known finding C08-basename)
-  | firstFileDecidesInputType  -- `get_first_file`: only reached for a directory input with input_file_type=Auto; the first
-                               -- listed file decides the inferred type (known finding C08-auto-dir when the files differ in type)
+  | sortedByBasenameThenPath   -- `sorted(…, key=lambda p: (p.name, p.as_posix()))`: the second component of the key is the entry
+                               -- itself, so the key is injective and the order is independent of the listing order for EVERY
+                               -- directory (`iterSource_perm_invariant`, unconditional since the repair of C08-basename)
   deriving Repr, DecidableEq
 
-/-- every directory-listing call that is not `sorted(` in the natural (total) order of its entries: ((file, function, call), tag) -/
+/-- every directory-listing call that is not `sorted(` in the natural (total) order of its entries: ((file, function, call), tag).
+`get_first_file` is no longer here: since the repair of C08-auto-dir it is `sorted(path.rglob("*"))` without a key, the shape
+every listing call has by default (`perm_invariant_of_sorted`). -/
 def reviewedListingSites : List ((Nat × Nat × Nat) × ListingTag) :=
-  [((k! "parser/base.py", k! "Parser.iter_source", k! "self.source.rglob"), .sortedByBasename),
-   ((k! "__init__.py", k! "get_first_file", k! "path.rglob"), .firstFileDecidesInputType)]
+  [((k! "parser/base.py", k! "Parser.iter_source", k! "self.source.rglob"), .sortedByBasenameThenPath)]
+
+/-- the two directory-listing sites of the package with the shape each must have: (file, function, call, key shape).
+A site that disappears (the listing is done some other way) or changes its shape breaks `listing_sites_sorted`. -/
+def expectedListingSites : List (Nat × Nat × Nat × Nat) :=
+  [(k! "__init__.py", k! "get_first_file", k! "path.rglob", k! "natural"),
+   (k! "parser/base.py", k! "Parser.iter_source", k! "self.source.rglob", k! "basename-then-path")]
 
 inductive StateTag where
   | pydanticFieldDefault   -- default of a pydantic field: copied for every instance, the class-level object is never handed out
@@ -215,8 +221,37 @@ def runCalls [BEq α] (f : α → β) : Cache α β → List α → List β × C
     let rest := runCalls f r.2 xs
     (r.1 :: rest.1, rest.2)
 
-/-- Python `sorted(xs, key=key)`: a stable sort comparing keys only -/
-def sortByKey (key : α → Nat) (l : List α) : List α := l.mergeSort (fun a b => decide (key a ≤ key b))
+/-- the text of a path (`p.as_posix()`) or of one of its components (`p.name`): its code points -/
+abbrev Str := List Nat
+
+/-- Python's `<=` on `str`: lexicographic by code point, a proper prefix is smaller -/
+def strLe : Str → Str → Bool
+  | [], _ => true
+  | _ :: _, [] => false
+  | a :: as, b :: bs => a < b || (a == b && strLe as bs)
+
+/-- Python's `<=` on the tuples `(p.name, p.as_posix())` built by the key of `Parser.iter_source`: the first components
+decide unless they are equal, then the second ones do. `name` is whatever maps a path to its last component — nothing below
+depends on which function it is. -/
+def keyLe (name : Str → Str) (a b : Str) : Bool :=
+  if name a = name b then strLe a b else strLe (name a) (name b)
+
+/-- `sorted(listing, key=lambda p: (p.name, p.as_posix()))`: a stable sort comparing these tuples only (for a total order
+`not (key b < key a)`, which is what the sort asks, is `key a <= key b`) -/
+def iterSourceOrder (name : Str → Str) (listing : List Str) : List Str := listing.mergeSort (keyLe name)
+
+/-- the sort of the code before the repair of C08-basename, `key=lambda p: p.name` — kept ONLY to state that the repair
+leaves the order of directories with pairwise distinct basenames as it was; nothing in the code has this shape any more -/
+def basenameOnlyOrder (name : Str → Str) (listing : List Str) : List Str :=
+  listing.mergeSort (fun a b => strLe (name a) (name b))
+
+/-- `get_first_file` on a directory: `for child in sorted(path.rglob("*")): if child.is_file(): return child` (`none` = the
+loop ends without a file: "File not found"). `le` is the natural order of the entries (for `Path` objects the comparison of
+their component lists, a total order like `strLe`; nothing below depends on which one). -/
+def firstFile (le : α → α → Bool) (isFile : α → Bool) (listing : List α) : Option α := (listing.mergeSort le).find? isFile
+
+/-- `PurePath.name` on the text of a path: what follows the last `/` (code point 47) -/
+def basename (p : Str) : Str := (p.reverse.takeWhile (· != 47)).reverse
 
 /-- function update (`setattr` / `d[k] = v`) -/
 def update [DecidableEq κ] (m : κ → ν) (k : κ) (v : ν) : κ → ν := fun k' => if k' = k then v else m k'
